@@ -260,18 +260,34 @@ theorem stageAlias_ok : StageOK b h0 cd h (stageAlias cd h) := by
   · simp only [ha]
     exact ⟨Ext.refl h, B, by intro k v hm; simp at hm⟩
 
-theorem stageLinker_ok (sub : Val) (hsub : NewV b h sub) : StageOK b h0 cd h (h, stageLinker cd sub) := by
-  refine ⟨Ext.refl h, B, ?_⟩
-  intro k v hm
-  unfold stageLinker at hm
+theorem stageLinker_ok (sub : Val) (hsub : NewV b h sub) : StageOK b h0 cd h (stageLinker cd sub h) := by
+  unfold stageLinker
   by_cases hl : cd.base = .linker
-  · simp [hl] at hm
-    rcases hm with ⟨_, rfl⟩ | ⟨_, rfl⟩ | ⟨_, rfl⟩ | ⟨_, rfl⟩
-    · exact hsub
-    · exact (NewV.imm _ _ _)
-    · exact (NewV.imm _ _ _)
-    · exact (NewV.imm _ _ _)
-  · simp [hl] at hm
+  · simp only [hl, if_true]
+    cases sub with
+    | imm i =>
+      refine ⟨Ext.append _ _, ?_, ?_⟩
+      · apply B.append
+        intro e he k c hm
+        simp at he; subst he; simp at hm
+      · intro k v hm
+        simp at hm
+        rcases hm with ⟨_, rfl⟩ | ⟨_, rfl⟩ | ⟨_, rfl⟩ | ⟨_, rfl⟩
+        · exact NewV.ref hb (by simp)
+        · exact NewV.imm _ _ _
+        · exact NewV.imm _ _ _
+        · exact NewV.imm _ _ _
+    | ref l =>
+      refine ⟨Ext.refl h, B, ?_⟩
+      intro k v hm
+      simp at hm
+      rcases hm with ⟨_, rfl⟩ | ⟨_, rfl⟩ | ⟨_, rfl⟩ | ⟨_, rfl⟩
+      · exact hsub
+      · exact NewV.imm _ _ _
+      · exact NewV.imm _ _ _
+      · exact NewV.imm _ _ _
+  · simp only [hl]
+    exact ⟨Ext.refl h, B, by intro k v hm; simp at hm⟩
 
 theorem stageContainer_ok (names : List String) (span : Val) (hspan : NewV b h span) :
     StageOK b h0 cd h (stageContainer cd names span h) := by
@@ -385,7 +401,7 @@ theorem construct_ok {b : Nat} {h0 h : Heap} {cd : ClassDesc} (wf0 : WF h0) (e0 
   have S0 : StageOK b h0 cd h (h, []) := ⟨Ext.refl h, B, by intro k v hm; simp at hm⟩
   have S1 := thread_ok S0 (stageAlias_ok wf0 e0 ok B hb)
   have l1 := S1.ext.len
-  have S2 := thread_ok (f := fun h0' => (h0', stageLinker cd sub)) S1
+  have S2 := thread_ok S1
     (stageLinker_ok wf0 (e0.trans S1.ext) ok S1.blk (by omega) sub (hsub.mono S1.ext))
   have l2 := S2.ext.len
   have S3 := thread_ok S2
